@@ -313,6 +313,7 @@ def run_case(chk, W, cl, fields, c, presents, raws, cut, stats, raws_py=None):
     payload_abs, pres = payload_of(c, fields, presents, raws, cut)
     if gen.lookalike_hazard(payload_abs):
         chk.unmodelled += 1
+        chk.note("unmodelled:lookalike-hazard")
         return
     conv = W.conv(c)
     if raws_py is None:
@@ -349,6 +350,7 @@ def run_case(chk, W, cl, fields, c, presents, raws, cut, stats, raws_py=None):
     om, scope = model_outcome(W, c, fields, payload_abs)
     if om[0] == "unmodelled":
         chk.unmodelled += 1
+        chk.note("unmodelled:leaf-coercion-outside-model")
         return
     stats["in_scope" if all(scope) else "out_of_scope"] += 1
     if canon(oi) != canon(om):
@@ -398,11 +400,29 @@ def gen_field(chk, G, W, name, tk=None, conv=None, dflt=None):
     return f
 
 
-def gen_raw(chk, G, W, f):
+def is_container_type(t):
+    t = gen.strip_wraps(t)
+    while not isinstance(t, str) and t[0] == "opt":
+        t = gen.strip_wraps(t[1])
+    return not isinstance(t, str) and t[0] in gen.SEQ_KINDS + gen.SET_KINDS + gen.MAP_KINDS + ["tup"]
+
+
+def gen_raw(chk, G, W, f, valid_only=False):
     """-> (kind, abstract raw value) for one field: valid for its type, mutated, junk, or one of the special values"""
+    kind, x = gen_raw1(chk, G, W, f, valid_only)
+    # iterating a str/bytes where a collection is expected is outside the data-path model: keep it rare
+    for _ in range(3):
+        if f["tk"] == "typed" and x[0] in ("s", "y") and is_container_type(f["ty"]):
+            kind, x = gen_raw1(chk, G, W, f, valid_only)
+    return kind, x
+
+
+def gen_raw1(chk, G, W, f, valid_only):
     r = chk.rng
-    c = r.random()
-    if c < 0.12:
+    c = r.random() * 0.7 if valid_only else r.random()
+    if valid_only and f["tk"] != "typed":
+        return "leaf", G.any_leaf()
+    if c < 0.12 and not valid_only:
         return "special", r.choice([("s", "boom"), ("N",), ("i", r.randint(-3, 30)), ("s", "5")])
     if f["tk"] == "typed" and c < 0.85:
         x = G.value(W.w, f["ty"], 2, any_stable=False)
@@ -470,9 +490,10 @@ def run_random(chk, G, W, n_classes, stats, n_payloads=3):
             continue
         cfgs = base + r.sample(legacy, 2)
         for _ in range(n_payloads):
-            raws = realise_raws(chk, W, [gen_raw(chk, G, W, f) for f in fields])
+            valid_only = r.random() < 0.5
+            raws = realise_raws(chk, W, [gen_raw(chk, G, W, f, valid_only) for f in fields])
             raws_py = [W.S.R.val(x) for x in raws]
-            presents = [r.random() < 0.8 for _ in fields]
+            presents = [r.random() < (0.9 if valid_only else 0.75) for _ in fields]
             cut = n if r.random() < 0.7 else r.randint(0, n)
             for c in cfgs:
                 run_case(chk, W, cl, fields, c, presents, raws, cut, stats, raws_py=raws_py)
@@ -482,7 +503,7 @@ def run(chk: framework.Check):
     drv = lean.Driver()
     G = gen.Gen(chk.rng)
     stats = {"oracle_fail": 0, "corr_fail": [], "corr_fail_with_oracle_fail": 0, "in_scope": 0, "out_of_scope": 0}
-    n_worlds, per_world = (40, 10) if chk.tier == "quick" else (400, 12)
+    n_worlds, per_world = (60, 10) if chk.tier == "quick" else (600, 12)
     made = 0
     attempts = 0
     while made < n_worlds and attempts < n_worlds * 3:
